@@ -1,6 +1,7 @@
 """C04 - log-densities are the documented normalised densities in every parameterisation.
 
 Spec: specs/Families.tla (+ lib/SymLog.tla, DiffOps.tla); part `Reassign` of the same module for sequences on one object;
+specs/FamiliesStruct.tla (part Structures: matrix structure as a dimension of every Gaussian input form, direct sums at dim 75 / 76);
 specs/FamiliesSib.tla (parts Siblings, Buffers) and specs/DiffOpsLive.tla (part Live) for objects derived from one another, argument
 arrays rewritten in place and parameters edited in place (replay: harness/cuqiverif/c04_round6.py).  TLC enumerates the parameter lattice of every family, checks
 SameDistribution / QuadIdentity / Unnormalised / NaNOutside / OutcomeTable on the specification and emits the exact
@@ -33,7 +34,20 @@ META = {
              "O(values).logpdf|logd|pdf|cdf, likelihood evaluation and plain evaluation (BufContentAtCallTime, deviation DevIdentityMemo "
              "refuted); each value is that of the content at call time and no call modifies its arguments. Live - parameters tagged Live "
              "in the spec are edited in place through the getter-returned array; the density is the documented one at the values the "
-             "getters report at that moment (LvReportedIsUsed, deviation DevKeepsDerived refuted)."),
+             "getters report at that moment (LvReportedIsUsed, deviation DevKeepsDerived refuted). Round 8 (specs/FamiliesStruct.tla, part "
+             "Structures): the matrix STRUCTURE is a dimension of every Gaussian input form - a gallery of 14 rational factors (diagonal, "
+             "generic, bidiagonal / tridiagonal, two blocks 2+1 / 1+2 / 2+2, permutation-similar to two blocks, cross patterns "
+             "[[a,0,b],[0,c,0],[b,0,a]] with simple and repeated eigenvalues, identity plus rank one, J + I/4; dim 2-4), each as it is and "
+             "transposed, as square-root precision and as square-root covariance; the classes are PREDICATES on the symmetric matrix and "
+             "GalleryCoversClasses requires every class for the covariance and for the precision; StructSameDistribution / StructScalingLaw "
+             "(exact Canon of all four forms), SpectralRouteSame (the listed rational eigenpairs are checked and the spectral "
+             "reconstruction with a sign normalisation of the eigenvectors is the matrix; named deviation DevSignFromDiagonalEntry - sign "
+             "of the k-th entry of the k-th eigenvector, zero for block-supported eigenvectors - refuted, DeviationShowsOnlyThere), "
+             "DirectSumLaw (a structured block on any coordinates of a Gaussian with independent other coordinates: every form of the "
+             "embedded input denotes Canon(block) (+) Canon(pad), checked exactly for dim k+1). Replay: every structure in all four forms "
+             "x containers on both sides of the lowered threshold at three evaluation points per object (logpdf / pdf / logd, compute_cov, "
+             "cov / sqrtprec attributes, scaling law 4^+-30, conditioned callables) and embedded at the head / tail / spread over the "
+             "coordinates of dim-75 and dim-76 Gaussians (both sides of the REAL MIN_DIM_SPARSE; expected value from DirectSumLaw)."),
     "note": ("Bounded rational lattices (dyadic scales, integer shapes, smooth integers under logarithms); that the documented "
              "formulas integrate to one is trusted mathematics; Gaussian cdf compared at scipy's integration accuracy; sparse "
              "non-diagonal Gaussians refuse logpdf without cholmod (accepted); user-defined distributions: pass-through of the "
@@ -347,7 +361,10 @@ _HOWS = {"scalar": ["scalar"], "vector": ["ndarray", "list"], "diag": ["ndarray"
          "sparse": ["csr", "dia", "csc"]}
 
 
-def check_gaussian(ctx, un, case):
+def check_gaussian(ctx, un, case, more=(), struct=None, hows=None, scaled=True, callables=True):
+    """case: one Gaussian case of the lattice.  more: further cases with the SAME parameters and other evaluation points (they are
+    evaluated on the same objects).  struct: name of the matrix structure (part Structures) for the signature.  hows: restriction
+    of the containers per shape (quick-tier rotation of the Structures part); scaled / callables: replay those facets or not."""
     import cuqi
     from cuqiverif import families_common as fc
     d = case["dim"]
@@ -355,18 +372,19 @@ def check_gaussian(ctx, un, case):
     mean = fc.vec(case["par"]["mean"])
     thresholds = [None] + ([d - 1] if d >= 2 else [])
     seen_forms = set()
+    hows = hows or _HOWS
     for inp in case["inputs"]:
         form, shape, data = inp["form"], inp["shape"], inp["data"]
         if shape == "sparse" and d == 1:
             continue                                   # a 1 x 1 sparse matrix is not a meaningful input
         diag = shape in ("scalar", "vector") or fc.is_diag(data)
-        for how in _HOWS[shape]:
+        for how in hows[shape]:
             if shape == "sparse" and how == "csc" and ctx.tier == "quick":
                 continue
             for thr in thresholds:
                 for mway in (["ndarray", "scalar"] if (case["scal"]["mean"] and how in ("scalar", "ndarray", "csr")) else ["ndarray"]):
                     way = "%s:%s:%s+mean:%s" % (form, shape, how, mway)
-                    extra = "/thr=%s/struct=%s" % ("default" if thr is None else thr, "diag" if diag else "full")
+                    extra = "/thr=%s/struct=%s" % ("default" if thr is None else thr, struct or ("diag" if diag else "full"))
 
                     def builder():
                         kw = {form: fc.gaussian_param(shape, data, how)}
@@ -385,17 +403,26 @@ def check_gaussian(ctx, un, case):
                         ok = _eval_density(ctx, un, case, "Gaussian", way, d, dist, x, extra=extra, accept_refusal=refusal_ok,
                                            xforms=(thr is None and how in ("scalar", "ndarray")),
                                            pkey=json.dumps([case["par"], case["prec"]], sort_keys=True))
-                        if ok and thr is None and (form, shape) not in seen_forms and mway == "ndarray" and shape != "sparse":
-                            seen_forms.add((form, shape))
+                        # (part Structures: the computed covariance and the attributes on BOTH sides of the threshold)
+                        fkey = (form, shape) if struct is None else (form, shape, how, thr)
+                        if ok and (thr is None or struct is not None) and fkey not in seen_forms and mway == "ndarray" and shape != "sparse":
+                            seen_forms.add(fkey)
+                            if struct is not None:
+                                _eval_gaussian_attributes(ctx, case, way, d, dist, extra)      # before compute_cov()
                             # scipy integrates the multivariate cdf numerically (abseps 1e-5)
-                            _eval_cdf(ctx, case, "Gaussian", way, d, dist, x, extra=extra,
-                                      tol=(1e-9, 1e-12) if d == 1 else (0.0, 2e-4))
-                            _eval_gaussian_cov_cdf(ctx, case, way, d, dist, x, mean, extra)
-                        if mway == "ndarray" and shape in ("diag", "dense", "sparse"):
+                            if thr is None:
+                                _eval_cdf(ctx, case, "Gaussian", way, d, dist, x, extra=extra,
+                                          tol=(1e-9, 1e-12) if d == 1 else (0.0, 2e-4))
+                            _eval_gaussian_cov_cdf(ctx, case, way, d, dist, x, mean, extra,
+                                                   with_cdf=(thr is None and (struct is None or ctx.tier != "quick")))
+                        for cs in (more if ok else ()):                      # the other evaluation points, on the same object
+                            _eval_density(ctx, un, cs, "Gaussian", way, d, dist, fc.vec(cs["x"]), extra=extra, accept_refusal=refusal_ok,
+                                          xforms=False, pkey=json.dumps([case["par"], case["prec"]], sort_keys=True))
+                        if scaled and mway == "ndarray" and shape in ("diag", "dense", "sparse"):
                             _eval_gaussian_scaled(ctx, case, form, shape, data, how, way, d, x, mean, extra, refusal_ok)
     # callable parameters conditioned later (one per form, dense data)
     for inp in case["inputs"]:
-        if inp["shape"] != "dense":
+        if inp["shape"] != "dense" or not callables:
             continue
         form = inp["form"]
 
@@ -408,8 +435,10 @@ def check_gaussian(ctx, un, case):
             ctx.mismatch(_sig("construct", "Gaussian", way, d, case), case,
                          "conditional Gaussian cannot be conditioned on its parameters: %r" % (dist,))
             continue
-        _eval_density(ctx, un, case, "Gaussian", way, d, dist, x, extra="/thr=default", xforms=False,
-                      pkey=json.dumps([case["par"], case["prec"]], sort_keys=True))
+        for cs in [case] + list(more):
+            _eval_density(ctx, un, cs, "Gaussian", way, d, dist, fc.vec(cs["x"]),
+                          extra="/thr=default" + ("/struct=%s" % struct if struct else ""), xforms=False,
+                          pkey=json.dumps([case["par"], case["prec"]], sort_keys=True))
 
 
 def check_gaussbig(ctx, un, case):
@@ -443,6 +472,165 @@ def check_gaussbig(ctx, un, case):
                     continue
                 _eval_density(ctx, un, pseudo, "GaussianBig", way, d, dist, x, xforms=False,
                               pkey=json.dumps([case["mean"], case["inputs"][1]["vec"]]))
+
+
+# ------------------------------------------------------------------ part Structures (specs/FamiliesStruct.tla)
+def _struct_wd(label):
+    import os
+    from cuqiverif import tlc
+    return os.path.join(tlc.WORK, "FamiliesStruct-c04-%s-%d" % (label, os.getpid()))
+
+
+_STRUCT_MODS = ["Families.tla", "DiffOps.tla"]
+
+
+def start_struct_tlc(ctx):
+    """the TLC runs of the part Structures (gallery of matrix structures x input forms; named deviation), in background threads"""
+    from concurrent.futures import ThreadPoolExecutor
+    pool = ThreadPoolExecutor(max_workers=2)
+    jobs = {"struct": pool.submit(ctx.tlc, "FamiliesStruct", cfg="FamiliesStruct.%s.cfg" % ctx.tier, workers=3, timeout=1700,
+                                  extra_modules=_STRUCT_MODS, workdir=_struct_wd("main")),
+            "dev": pool.submit(ctx.tlc, "FamiliesStruct", cfg="FamiliesStruct.sign_from_diagonal.deviation.cfg", workers=1, timeout=900,
+                               extra_modules=_STRUCT_MODS, expect_violation=True, workdir=_struct_wd("dev"))}
+    pool.shutdown(wait=False)
+    return jobs
+
+
+def discard_struct_tlc(jobs):
+    from cuqiverif import tlc
+    for f in jobs.values():
+        try:
+            tlc.cleanup(f.result())
+        except BaseException:      # noqa: BLE001
+            pass
+    for label in ("main", "dev"):
+        tlc.cleanup(_struct_wd(label))
+
+
+def struct_groups(cases):
+    """cases of one distribution (same structure, role, orientation, mean - and for the direct sums dimension, position, pad)
+    that differ in the evaluation point only"""
+    g = {}
+    for c in cases:
+        k = dict(c["cfg"])
+        k.pop("x")
+        g.setdefault(json.dumps(k, sort_keys=True), []).append(c)
+    return [sorted(v, key=lambda c: c["cfg"]["x"]) for _, v in sorted(g.items())]
+
+
+def check_struct(ctx, un, group, gi=0):
+    """one structured Gaussian in every input form / container on both sides of the (lowered) threshold, evaluated at all points of
+    the group.  quick tier: dense ndarray inputs always; nested lists, the scipy-sparse containers, the scaling law and the
+    conditioned callables rotate over the groups with the seed; thorough tier: everything on every group."""
+    if ctx.tier == "quick":
+        r = (gi + ctx.seed) % 3
+        hows = dict(_HOWS, dense=["ndarray"] + (["list"] if r == 0 else []), sparse=(["csr"] if r == 1 else ["dia"] if r == 2 else []))
+        scaled, callables = (gi + ctx.seed) % 2 == 0, r == 0
+    else:
+        hows, scaled, callables = None, True, True
+    # the first point of the group (it carries the scaling law) rotates with the group
+    k = (gi + ctx.seed) % len(group)
+    check_gaussian(ctx, un, group[k], more=group[:k] + group[k + 1:], struct=group[0]["struct"], hows=hows, scaled=scaled,
+                   callables=callables)
+
+
+def _embed(block, pad, idx, n):
+    M = np.diag(np.asarray(pad, dtype=float))
+    ix = np.array(idx) - 1
+    M[np.ix_(ix, ix)] = block
+    return M
+
+
+def check_structbig(ctx, un, group):
+    """direct sum of a structured block (coordinates idx) and independent coordinates, dim 75 / 76 = both sides of the REAL
+    MIN_DIM_SPARSE; the n x n inputs are assembled from the spec's block and pad of each form; expected value = DirectSumLaw"""
+    import cuqi
+    from cuqiverif import families_common as fc
+    c0 = group[0]
+    n, idx = c0["dim"], c0["idx"]
+    mean = fc.vec(c0["mean"])
+    full = {i["form"]: _embed(fc.mat(i["block"]), fc.vec(i["pad"]), idx, n) for i in c0["inputs"]}
+    extra = "/struct=%s/pos=%s" % (c0["struct"], c0["pos"])
+    for form, M in sorted(full.items()):
+        way = "%s:dense:ndarray+mean:ndarray" % form
+        st, dist, _ = fc.call(lambda: cuqi.distribution.Gaussian(np.array(mean), **{form: np.array(M)}))
+        if st == "raise":
+            ctx.mismatch(_sig("construct", "GaussianBig", way, n, c0, extra), c0,
+                         "Gaussian cannot be built from a documented input form: %r" % (dist,))
+            continue
+        for cs in group:
+            pseudo = {"fam": "GaussianBig", "logpdf": cs["logpdf"], "cfg": cs["cfg"], "inside": True, "par": None,
+                      "kind": "structbig_point", "group": group}
+            _eval_density(ctx, un, pseudo, "GaussianBig", way, n, dist, fc.vec(cs["x"]), extra=extra, xforms=False,
+                          pkey=json.dumps([c0["struct"], n, c0["pos"], c0["cfg"]["a"], c0["cfg"]["g"]]))
+        # one distribution: sqrtprec' sqrtprec is the precision input, the computed covariance the covariance input
+        ctx.case(("structbig_attr", fc.case_id(c0), way, extra), facet="gauss_attr")
+        st, v, _ = fc.call(lambda: dist.sqrtprec)
+        if st == "value" and v is not None and not callable(v):
+            R = _expand_sym(v, n)
+            if R is None or not np.allclose(R.T @ R, full["prec"], rtol=1e-9, atol=1e-12):
+                ctx.mismatch(_sig("attr_sqrtprec", "GaussianBig", way, n, c0, extra), c0,
+                             "sqrtprec' sqrtprec is not the precision of the distribution the object denotes", full["prec"], v)
+        st, v, _ = fc.call(lambda: dist.compute_cov())
+        if st == "value":
+            C = np.asarray(v.todense() if hasattr(v, "todense") else v, dtype=float)
+            if C.shape != (n, n) or not np.allclose(C, full["cov"], rtol=1e-9, atol=1e-12):
+                ctx.mismatch(_sig("compute_cov", "GaussianBig", way, n, c0, extra), c0,
+                             "the covariance computed from this input form is not the covariance of the one distribution all input "
+                             "forms denote", full["cov"], C)
+        else:
+            ctx.observations["compute_cov_raises"] = ctx.observations.get("compute_cov_raises", 0) + 1
+
+
+def run_struct(ctx, jobs):
+    """part Structures: TLC checks StructSameDistribution / StructScalingLaw / GalleryCoversClasses / SpectralRouteSame /
+    DirectSumLaw on FamiliesStruct.tla and refutes the named deviation DevSignFromDiagonalEntry; every emitted case is replayed"""
+    import time
+    from cuqiverif import tlc
+    from cuqiverif.core import MachineryError
+    t0 = time.time()
+    try:
+        res, dev = jobs["struct"].result(), jobs["dev"].result()
+    except BaseException:
+        discard_struct_tlc(jobs)
+        raise
+    t1 = time.time()
+    violated = dev.violated
+    tlc.cleanup(dev)
+    ctx.model_must_hold(res, "FamiliesStruct")
+    cases = list(res.cases)
+    tlc.cleanup(res)
+    if violated != "SpectralRouteSame":
+        raise MachineryError("deviation DevSignFromDiagonalEntry did not violate SpectralRouteSame (got %r): vacuous invariant" % (violated,))
+    ctx.observations.setdefault("deviations_refuted_by_tlc", {})["DevSignFromDiagonalEntry"] = "SpectralRouteSame"
+    gal = [c for c in cases if c.get("kind") == "structgallery"]
+    small = struct_groups([c for c in cases if c.get("kind") == "struct"])
+    big = struct_groups([c for c in cases if c.get("kind") == "structbig"])
+    if not gal or not small or not big:
+        raise MachineryError("FamiliesStruct.tla emitted no cases (%d, %d, %d)" % (len(gal), len(small), len(big)))
+    names = set(gal[0]["names"])
+    seen = {g[0]["struct"].split(":")[0] for g in small}, {g[0]["struct"].split(":")[0] for g in big}
+    if seen[0] != names or seen[1] != names:
+        raise MachineryError("FamiliesStruct.tla: gallery members without cases: %r" % (sorted((names - seen[0]) | (names - seen[1])),))
+    un = _Unnorm()
+    for gi, g in enumerate(small):
+        check_struct(ctx, un, g, gi)
+    big_run = big            # (0.5 s per 56 groups: the quick tier runs all of them)
+    for g in big_run:
+        check_structbig(ctx, un, g)
+    cls = {}
+    for g in small:
+        for w in ("cov", "prec"):
+            for k in g[0]["classes"][w]:
+                cls.setdefault(k, set()).add(g[0]["struct"].split(":")[0])
+    ctx.observations["struct_classes_replayed"] = {k: sorted(v) for k, v in sorted(cls.items())}
+    ctx.observations["struct_groups_replayed"] = {"small": len(small), "direct_sum": len(big_run), "direct_sum_emitted": len(big)}
+    ctx.observations["struct_part_wall_s"] = {"waited_for_tlc": round(t1 - t0, 1), "replay": round(time.time() - t1, 1)}
+    g = small[len(small) // 2]
+    ctx.sample({"struct": g[0]["struct"], "dim": g[0]["dim"], "classes": g[0]["classes"], "mean": g[0]["par"]["mean"],
+                "inputs": {i["form"]: i["data"] for i in g[0]["inputs"] if i["shape"] == "dense"},
+                "points": [{"x": c["x"], "logpdf": c["logpdf"]} for c in g]})
+    return len(small) + len(big_run)
 
 
 # ------------------------------------------------------------------ Reassign part: one object, parameters assigned one by one
@@ -701,6 +889,15 @@ def dispatch(ctx, un, case, mrf_cache=None):
 
 
 def run(ctx):
+    st_jobs = start_struct_tlc(ctx)
+    try:
+        _run(ctx, st_jobs)
+    except BaseException:
+        discard_struct_tlc(st_jobs)         # leave no TLC work directory behind
+        raise
+
+
+def _run(ctx, st_jobs):
     from cuqiverif import families_common as fc, tlc, c04_round6 as r6
     from cuqiverif.core import MachineryError
     re_jobs = start_reassign_tlc(ctx)
@@ -749,6 +946,8 @@ def run(ctx):
         raise
     # parts Siblings / Buffers / Live (round 6): behaviours of FamiliesSib.tla / DiffOpsLive.tla on the cases of the lattice
     r6.run(ctx, r6_jobs, re_cases, cases)
+    # part Structures (round 8): matrix structure as a dimension of every Gaussian input form (FamiliesStruct.tla)
+    n += run_struct(ctx, st_jobs)
     ctx.observations["cases_per_family"] = {f: len(v) for f, v in fams.items()}
     for f in ("Cauchy", "Gaussian", "GMRF"):
         c = sorted(fams[f], key=fc.case_id)[len(fams[f]) // 2]
@@ -760,6 +959,9 @@ def run(ctx):
                 "form of x) evaluated on the real objects")
     ctx.exhaustive = True
     ctx.traces += n
+    ctx.rule += ("; part Structures: one group per (gallery member, role, orientation, mean pattern) with three evaluation points, "
+                 "replayed in all four input forms / containers / both thresholds, + one direct-sum group per (member, role, dim 75 / 76, "
+                 "position of the block)")
     ctx.assumptions += ["the documented density formulas integrate to one (textbook mathematics, trusted)",
                         "log 2, log 3, ..., log pi, log log 2 are evaluated by libm; linear independence of the atoms",
                         "scipy.stats.multivariate_normal.cdf accuracy (abseps 1e-5) for multivariate Gaussian cdfs",
@@ -777,4 +979,10 @@ def replay(ctx, case):
     if case.get("kind") == "r6":
         from cuqiverif import c04_round6 as r6
         return r6.replay(ctx, case)
+    if case.get("kind") == "struct":
+        return check_gaussian(ctx, _Unnorm(), case, struct=case["struct"])
+    if case.get("kind") == "structbig":
+        return check_structbig(ctx, _Unnorm(), [case])
+    if case.get("kind") == "structbig_point":
+        return check_structbig(ctx, _Unnorm(), case["group"])
     dispatch(ctx, _Unnorm(), case, mrf_cache={})
